@@ -103,6 +103,9 @@ def vec_names(spec, vec):
     if t == "mTrow":
         d = var_decl(spec, vec[1])
         return [mel_name(d, i, vec[2]) for i in range(d["rows"])]
+    if t == "mrowslice":
+        d = var_decl(spec, vec[1])
+        return [mel_name(d, vec[2], j) for j in range(vec[3], vec[4])]
     if t == "msubrow":
         d = var_decl(spec, vec[1])
         return [mel_name(d, vec[2], j) for j in range(vec[3], vec[4])]
@@ -165,6 +168,9 @@ def mentioned(spec, e, acc=None):
             acc.update(vec_mentioned(spec, e[2]))
         elif t in ("quad", "norm"):
             acc.update(vec_mentioned(spec, e[1]))
+        elif t == "bilin":
+            acc.update(vec_mentioned(spec, e[1]))
+            acc.update(vec_mentioned(spec, e[3]))
         elif t == "chain":
             stack.extend(e[2])
         else:
@@ -204,6 +210,9 @@ def params_in(e, acc=None):
             stack.extend(e[2])
         elif t in ("vsum", "norm", "quad"):
             stack.append(e[1])
+        elif t == "bilin":
+            stack.append(e[1])
+            stack.append(e[3])
         elif t == "lincomb":
             stack.append(e[2])
         elif t == "dot":
@@ -326,6 +335,8 @@ def _build_vec(m, vec):
         return m.vars[vec[1]].diagonal()
     if t == "mTrow":
         return m.vars[vec[1]].T[vec[2], :]
+    if t == "mrowslice":
+        return m.vars[vec[1]][vec[2], vec[3] : vec[4]]
     if t == "msubrow":
         return m.vars[vec[1]][vec[2] : vec[2] + 1, vec[3] : vec[4]][0, :]
     if t == "vexpr":
@@ -423,6 +434,9 @@ def build_expr(m, e):
             buf[...] = Q
             Q = buf
         return v.dot(Q @ v)
+    if t == "bilin":
+        # a' Q b with two (possibly different) views: a.dot(Q @ b)
+        return build_vec(m, e[1]).dot(np.array(e[2], dtype=float) @ build_vec(m, e[3]))
     if t == "norm":
         return build_vec(m, e[1]).norm(e[2])
     if t == "chain":
@@ -598,6 +612,10 @@ def eval_expr(spec, e, pt, pv=None):
     if t == "quad":
         v = eval_vec(spec, e[1], pt, pv)
         return sum(v[i] * e[2][i][j] * v[j] for i in range(len(v)) for j in range(len(v)))
+    if t == "bilin":
+        a = eval_vec(spec, e[1], pt, pv)
+        b = eval_vec(spec, e[3], pt, pv)
+        return sum(a[i] * e[2][i][j] * b[j] for i in range(len(a)) for j in range(len(b)))
     if t == "norm":
         v = eval_vec(spec, e[1], pt, pv)
         return _math.sqrt(sum(x * x for x in v)) if e[2] == 2 else sum(abs(x) for x in v)
